@@ -489,6 +489,17 @@ Proof.
   rewrite W4. cbn [sdim]. apply proj_len; assumption.
 Qed.
 
+Lemma mk_rscal_eval s D d : eval P (mk_rscal s D) d = eval P D (vscal s d).
+Proof. destruct D; cbn [mk_rscal eval]; try reflexivity. rewrite vscal_vscal. f_equal. f_equal. apply Rmult_comm. Qed.
+Lemma mk_rscal_lin s D : is_lin (mk_rscal s D) = is_lin D.
+Proof. destruct D; reflexivity. Qed.
+Lemma mk_rscal_wt s D : wt P (mk_rscal s D) = wt P D.
+Proof. destruct D; reflexivity. Qed.
+Lemma mk_rscal_dom s D : dom P (mk_rscal s D) = dom P D.
+Proof. destruct D; reflexivity. Qed.
+Lemma mk_rscal_ran s D : ran P (mk_rscal s D) = ran P D.
+Proof. destruct D; reflexivity. Qed.
+
 Lemma eval_len e : len_ok e.
 Proof.
   unfold len_ok.
@@ -894,9 +905,13 @@ Proof.
       apply (blin_hdiff _ _ _ _ (blin_scale _ s) Hx). }
     destruct (rsv P) eqn:Erv.
     + (* repaired variant: OperatorRightScalarMult(op'(s x), s) *)
-      unfold sound. cbn [eval is_lin wt dom ran]. ssplit; auto.
-      apply (blin_comp _ (sdim (dom P a)) _ (eval P (derivative P a (vscal s x))) (vscal s));
-        [apply blin_scale|exact A2].
+      unfold sound. rewrite mk_rscal_lin, mk_rscal_wt, mk_rscal_dom, mk_rscal_ran. ssplit; auto.
+      * apply (hdiff_ext_len _ _ _ _ (fun d => eval P (derivative P a (vscal s x)) (vscal s d))); [|exact Hcomp].
+        intros d _. symmetry; apply mk_rscal_eval.
+      * apply (blin_ext _ _ (fun d => eval P (derivative P a (vscal s x)) (vscal s d))).
+        { intros d. symmetry; apply mk_rscal_eval. }
+        apply (blin_comp _ (sdim (dom P a)) _ (eval P (derivative P a (vscal s x))) (vscal s));
+          [apply blin_scale|exact A2].
     + (* current variant: s * op'(s x) *)
       unfold sound. rewrite mk_lscal_lin, mk_lscal_wt, mk_lscal_dom, mk_lscal_ran. ssplit; auto.
       * apply (hdiff_ext_len _ _ _ _ (fun d => eval P (derivative P a (vscal s x)) (vscal s d))); [|exact Hcomp].
